@@ -272,6 +272,97 @@ pub fn check_ladder(kind: &str, n: usize, dir: &Path, case: &Value) -> Vec<Viola
     out
 }
 
+pub const SCENARIOS: [&str; 12] = [
+    "self-include", "two-cycle", "three-cycle", "library-file-cycle", "library-dir-cycle", "diamond-through-library-file", "missing-include",
+    "include-directory", "file-named-twice", "directory-named", "library-file-named-twice", "deep-include-chain",
+];
+
+fn tpl(name: &str) -> String {
+    format!("template {name}() {{\n    signal input in;\n    signal output out;\n    out <== in;\n}}\n")
+}
+
+pub fn check_scenario(name: &str, dir: &Path, case: &Value) -> Vec<Violation> {
+    let _ = std::fs::remove_dir_all(dir);
+    std::fs::create_dir_all(dir.join("la")).expect("mkdir");
+    std::fs::create_dir_all(dir.join("lb")).expect("mkdir");
+    let w = |f: &str, t: String| std::fs::write(dir.join(f), t).expect("write");
+    let head = "pragma circom 2.1.0;\n";
+    let mut args: Vec<String> = vec!["a.circom".into()];
+    match name {
+        "self-include" => w("a.circom", format!("{head}include \"a.circom\";\n{}", tpl("A"))),
+        "two-cycle" => {
+            w("a.circom", format!("{head}include \"b.circom\";\n{}", tpl("A")));
+            w("b.circom", format!("{head}include \"a.circom\";\n{}", tpl("B")));
+        }
+        "three-cycle" => {
+            w("a.circom", format!("{head}include \"b.circom\";\n{}", tpl("A")));
+            w("b.circom", format!("{head}include \"c.circom\";\n{}", tpl("B")));
+            w("c.circom", format!("{head}include \"./a.circom\";\n{}", tpl("C")));
+        }
+        "library-file-cycle" => {
+            w("a.circom", format!("{head}include \"x.circom\";\n{}", tpl("A")));
+            w("la/x.circom", format!("{head}include \"y.circom\";\n{}", tpl("X")));
+            w("lb/y.circom", format!("{head}include \"x.circom\";\n{}", tpl("Y")));
+            args.extend(["-L".into(), "la/x.circom".into(), "-L".into(), "lb/y.circom".into()]);
+        }
+        "library-dir-cycle" => {
+            w("a.circom", format!("{head}include \"x.circom\";\n{}", tpl("A")));
+            w("la/x.circom", format!("{head}include \"y.circom\";\n{}", tpl("X")));
+            w("lb/y.circom", format!("{head}include \"x.circom\";\n{}", tpl("Y")));
+            args.extend(["-L".into(), "la".into(), "-L".into(), "lb".into()]);
+        }
+        "diamond-through-library-file" => {
+            w("a.circom", format!("{head}include \"b.circom\";\ninclude \"c.circom\";\n{}", tpl("A")));
+            w("b.circom", format!("{head}include \"x.circom\";\n{}", tpl("B")));
+            w("c.circom", format!("{head}include \"x.circom\";\n{}", tpl("C")));
+            w("la/x.circom", format!("{head}{}", tpl("X")));
+            args.extend(["-L".into(), "la/x.circom".into()]);
+        }
+        "missing-include" => w("a.circom", format!("{head}include \"nowhere.circom\";\n{}", tpl("A"))),
+        "include-directory" => w("a.circom", format!("{head}include \"la\";\n{}", tpl("A"))),
+        "file-named-twice" => {
+            w("a.circom", format!("{head}{}", tpl("A")));
+            args.push("./a.circom".into());
+        }
+        "directory-named" => {
+            w("a.circom", format!("{head}{}", tpl("A")));
+            w("la/x.circom", format!("{head}{}", tpl("X")));
+            args = vec![".".into()];
+        }
+        "library-file-named-twice" => {
+            w("a.circom", format!("{head}include \"x.circom\";\n{}", tpl("A")));
+            w("la/x.circom", format!("{head}{}", tpl("X")));
+            args.extend(["la/x.circom".into(), "-L".into(), "la/x.circom".into(), "-L".into(), "la".into()]);
+        }
+        _ => {
+            let mut prev = "a".to_string();
+            for i in 0..60 {
+                let next = format!("f{i}");
+                w(&format!("{prev}.circom"), format!("{head}include \"{next}.circom\";\n{}", tpl(&format!("T{prev}"))));
+                prev = next;
+            }
+            w(&format!("{prev}.circom"), format!("{head}{}", tpl("Last")));
+        }
+    }
+    let run = run_bin(&BinOpts { args: args.clone(), cwd: dir, hash_seed: Some(1), timeout: Duration::from_secs(20), sarif_file: None, mem_limit: Some(4 << 30) });
+    let ok = !run.timed_out && run.killed_by_signal.is_none() && !run.panicked() && matches!(run.exit, Some(0) | Some(1)) && run.summary.is_some();
+    if ok {
+        return Vec::new();
+    }
+    let class = if run.timed_out || run.killed_by_signal.is_some() {
+        "does-not-complete".to_string()
+    } else {
+        run.panic_signature().unwrap_or_else(|| format!("exit-{:?}", run.exit))
+    };
+    vec![Violation {
+        signature: format!("scenario/{name}/{class}"),
+        what: format!("project scenario {name} ({args:?}): the binary does not end normally ({class})"),
+        case: case.clone(),
+        expected: "exit status 0 or 1 after the summary line".into(),
+        observed: format!("exit {:?} signal {:?} timed out {}\n{}", run.exit, run.killed_by_signal, run.timed_out, crate::infra::truncate(&run.stderr, 300)),
+    }]
+}
+
 pub const OPTION_CORPUS: [&str; 6] = [
     "pragma circom 2.0.0;\ntemplate A(n) {\n    signal input in;\n    signal output out;\n    var x = 0;\n    if (n > 0) {\n        var x = 1;\n        out <-- in * x;\n    } else {\n        out <-- ~in;\n    }\n    component nb = Num2Bits(300);\n    nb.in <== in;\n}\ntemplate Num2Bits(n) {\n    signal input in;\n    signal output out[n];\n    for (var i = 0; i < n; i++) {\n        out[i] <-- (in >> i) & 1;\n    }\n}\ncomponent main = A(1);\n",
     "template B() {\n    signal input a;\n    signal output b;\n    b <-- a / 0;\n    b === a \\ 3;\n}\n",
@@ -289,7 +380,8 @@ pub fn run(run: &Run) {
          (template, custom, parallel, function statement, function return); (ii) all strings <= 3 (4) \
          symbols over a 30-symbol alphabet in 3 embeddings, all 1- and 2-byte files; (iii) 13 \
          recursion-prone constructs at sizes 10..10^4 through the binary; (iv) corpus x 3 curves x 3 \
-         levels x verbose x sarif through the binary; non-trivial = input accepted by the parser or \
+         levels x verbose x sarif through the binary; (v) 21 main-component forms x 4 public lists; \
+         (vi) 12 multi-file scenarios (include cycles, library cycles, diamonds, files named twice); non-trivial = input accepted by the parser or \
          rejected with a diagnostic (anything but a crash is an evaluated case), counted distinct",
     );
     let root = work_dir("c01");
@@ -378,6 +470,41 @@ pub fn run(run: &Run) {
                 run.violation(panic_violation(p, &case, &String::from_utf8_lossy(&bytes)))
             }
         }
+    });
+    // (v) main component forms, in-process.
+    let mains = [
+        "T()", "T(1)", "T()(1)", "T()(1, 2)", "T()(in <== 1, in2 <== 2)", "parallel T()", "parallel T()(1, 2)", "f(1)", "(1, 2)", "1", "x",
+        "M(1)", "Undefined()", "Undefined()(1)", "T()(T()(1, 2), 3)", "[T(), T()]", "T() + T()", "-T()", "T(f(1))", "T((1, 2))", "_",
+    ];
+    let publics = ["", "{public [in]} ", "{public [nosuch]} ", "{public [in, in]} "];
+    let mut main_cases = Vec::new();
+    for m in mains {
+        for p in publics {
+            main_cases.push((m, p));
+        }
+    }
+    par_each(&main_cases, |_, (m, p)| {
+        let src = format!("pragma circom 2.1.0;\ntemplate T() {{\n    signal input in;\n    signal input in2;\n    signal output out;\n    out <== in + in2;\n}}\nfunction f(u) {{\n    return u + 1;\n}}\ntemplate M(n) {{\n    signal input in;\n    signal output out;\n    out <== in * n;\n}}\ncomponent main {p}= {m};\n");
+        let case = json!({"kind": "main", "main": m, "public": p});
+        run.watch(&case);
+        let dir = thread_dir(&root);
+        run.eval(1);
+        match drive(&dir, "m.circom", src.as_bytes(), Curve::Bn254) {
+            Ok(_) => run.nontrivial(1),
+            Err(p) => run.violation(panic_violation(p, &case, &src)),
+        }
+    });
+    run.idle();
+    // (vi) multi-file scenarios through the binary.
+    par_each(&SCENARIOS, |i, name| {
+        let case = json!({"kind": "scenario", "scenario": name});
+        let dir = root.join(format!("scenario{i}"));
+        run.eval(1);
+        run.nontrivial(1);
+        let vs = check_scenario(name, &dir, &case);
+        run.outcome(&format!("scenario:{name}:{}", if vs.is_empty() { "ok" } else { "fails" }));
+        run.violations(vs);
+        let _ = std::fs::remove_dir_all(&dir);
     });
     // (iii)
     let sizes: &[usize] = match run.tier {
@@ -484,6 +611,18 @@ pub fn replay(case: &Value) -> Vec<Violation> {
             match drive(&root, "b.circom", &bytes, Curve::Bn254) {
                 Ok(_) => Vec::new(),
                 Err(p) => vec![panic_violation(p, case, &String::from_utf8_lossy(&bytes))],
+            }
+        }
+        Some("scenario") => check_scenario(case["scenario"].as_str().unwrap_or("self-include"), &root, case),
+        Some("main") => {
+            let src = format!(
+                "pragma circom 2.1.0;\ntemplate T() {{\n    signal input in;\n    signal input in2;\n    signal output out;\n    out <== in + in2;\n}}\nfunction f(u) {{\n    return u + 1;\n}}\ntemplate M(n) {{\n    signal input in;\n    signal output out;\n    out <== in * n;\n}}\ncomponent main {}= {};\n",
+                case["public"].as_str().unwrap_or(""),
+                case["main"].as_str().unwrap_or("T()")
+            );
+            match drive(&root, "m.circom", src.as_bytes(), Curve::Bn254) {
+                Ok(_) => Vec::new(),
+                Err(p) => vec![panic_violation(p, case, &src)],
             }
         }
         Some("ladder") => check_ladder(case["construct"].as_str().unwrap_or("parentheses"), case["size"].as_u64().unwrap_or(10) as usize, &root, case),
